@@ -30,6 +30,8 @@ type Obligation struct {
 	Support bool
 	Res     *ProveResult
 	except  string
+	CaseTerm       *Term
+	CaseLo, CaseHi int
 }
 
 type Frame struct {
@@ -125,7 +127,8 @@ func (u *Unit) oblige(st *State, name, kind string, tags []string, goal *Term, c
 	if ex, ok := u.except[name]; ok {
 		hyps = append(hyps, Not(ex)) // known finding: the obligation is proved on the complement of its predicate
 	}
-	o := &Obligation{Name: name, Kind: kind, Tags: tags, Hyps: hyps, Goal: goal, Clause: clause, Func: fnKey(u.fn), GetVals: u.getvals}
+	o := &Obligation{Name: name, Kind: kind, Tags: tags, Hyps: hyps, Goal: goal, Clause: clause, Func: fnKey(u.fn), GetVals: u.getvals,
+		CaseTerm: st.caseTerm, CaseLo: st.caseLo, CaseHi: st.caseHi}
 	u.obls = append(u.obls, o)
 	return o
 }
@@ -228,10 +231,9 @@ func (u *Unit) require(st *State, fr *Frame, safe *Term, kind string, in ssa.Ins
 		return false
 	}
 	st.assume(safe)
-	if safe.IsTrue() {
-		return true
-	}
-	return u.feasible(st)
+	// no feasibility query here: a path that can only continue by violating the obligation has a contradictory
+	// path condition and is pruned at its next branch
+	return true
 }
 
 func (u *Unit) safetyTags(kind string) []string {
